@@ -169,6 +169,7 @@ func (ctrler *EVMCtrler) ExecuteTrx(ctx *ctrlertypes.TrxContext) xerrors.XError 
 	defer ctrler.mtx.Unlock()
 
 	// issue #69 - in order to pass `snap` to `Prepare`, call `Snapshot` before `Prepare`
+	verifhook.EvmOp("ExecBegin", ctx.Tx.From, ctx.Tx.To, ctx.Tx.Nonce, ctx.Tx.Gas, ctx.Tx.Amount)
 	snap := ctrler.stateDBWrapper.Snapshot()
 	// issue #48 - prepare hash and index of tx
 	ctrler.stateDBWrapper.Prepare(ctx.TxHash, ctx.TxIdx, ctx.Tx.From, ctx.Tx.To, snap, ctx.Exec)
@@ -192,6 +193,7 @@ func (ctrler *EVMCtrler) ExecuteTrx(ctx *ctrlertypes.TrxContext) xerrors.XError 
 	if xerr != nil {
 		ctrler.stateDBWrapper.RevertToSnapshot(snap)
 		ctrler.stateDBWrapper.Finish()
+		verifhook.EvmOp("ExecEnd", "vmerr", uint64(0))
 		return xerr
 	}
 
@@ -199,6 +201,7 @@ func (ctrler *EVMCtrler) ExecuteTrx(ctx *ctrlertypes.TrxContext) xerrors.XError 
 		ctrler.stateDBWrapper.RevertToSnapshot(snap)
 		ctrler.stateDBWrapper.Finish()
 		ctx.RetData = evmResult.ReturnData
+		verifhook.EvmOp("ExecEnd", "failed", evmResult.UsedGas)
 		return xerrors.From(evmResult.Err)
 	}
 
@@ -215,6 +218,7 @@ func (ctrler *EVMCtrler) ExecuteTrx(ctx *ctrlertypes.TrxContext) xerrors.XError 
 	// Gas is already applied to accounts by buyGas and refundGas of EVM.
 	// the `EVM` handles nonce, amount and gas.
 	ctx.GasUsed = evmResult.UsedGas
+	verifhook.EvmOp("ExecEnd", "ok", evmResult.UsedGas)
 
 	ctx.RetData = evmResult.ReturnData
 
